@@ -130,7 +130,7 @@ def k21_match_overrides(ctx, pid: str):
                 if e[0] == "text-search" and not e[2]:
                     ctx.report.ob("K21.case-sensitive-search", "%s#%s" % (name, e[1]), False,
                                   "the matched text is searched with str.%s without case normalisation: a lower-case spelling of the same record is screened differently" % e[1], fi.where())
-            screened = [t for t, v in o.path.choices if t.startswith("arith len(fragments")]
+            screened = [t for t, v in o.path.choices if t.startswith("arith ") and "len(fragments" in t]
             if o.kind == "raise":
                 ok = bool(screened) and _is_exc(p, o.value, "moclo.errors.InvalidSequence")
                 return [("K21.match-override", name, ok,
@@ -433,8 +433,20 @@ def text_consumers_rule(ctx, rule: str):
                 tg = n.targets if isinstance(n, ast.Assign) else [n.target]
                 val = n.value
                 src = fi.module.segment(val) or ""
-                is_text = (isinstance(val, ast.Call) and isinstance(val.func, ast.Name) and val.func.id == "str") or any(
-                    isinstance(x, ast.Name) and x.id in text for x in ast.walk(val)) and not isinstance(val, ast.Call)
+                def texty(v):
+                    if isinstance(v, ast.Call) and isinstance(v.func, ast.Name) and v.func.id == "str":
+                        return True
+                    if isinstance(v, ast.Name):
+                        return v.id in text
+                    if isinstance(v, ast.BinOp):
+                        return texty(v.left) or texty(v.right)
+                    if isinstance(v, ast.Subscript):
+                        return texty(v.value)
+                    if isinstance(v, ast.IfExp):
+                        return texty(v.body) or texty(v.orelse)
+                    return False
+
+                is_text = texty(val)
                 if isinstance(val, ast.Call) and isinstance(val.func, ast.Attribute) and isinstance(val.func.value, ast.Name) and val.func.value.id in text and val.func.attr in ("upper", "lower"):
                     is_text = True
                 for t in tg:
